@@ -478,7 +478,10 @@ pub fn write_evidence(spec: &EvidenceSpec, acc: &Acc, wall_s: f64) {
     cov.insert("states".into(), json!(acc.states));
     cov.insert("transitions".into(), json!(acc.transitions));
     cov.insert("traces_validated_against_impl".into(), json!(acc.traces));
-    cov.insert("exhaustive".into(), json!(spec.exhaustive && !stopped()));
+    // a run is only called exhaustive when nothing was cut short: no early stop, no exploration that
+    // ended at an unconfirmed difference, no cap hit
+    let cut_short = acc.counters.keys().any(|k| k.starts_with("unconfirmed_") || k.ends_with("_cap_hits"));
+    cov.insert("exhaustive".into(), json!(spec.exhaustive && !stopped() && !cut_short));
     cov.insert("distinct_outcomes".into(), json!(acc.outcomes.len()));
     cov.insert("bounds_completed".into(), json!(spec.bounds));
     for (k, v) in &acc.counters {
